@@ -935,9 +935,14 @@ pub fn wrap_transcoded(t: &Transcoded, rng: &mut Rng, simple: bool) -> Vec<u8> {
 
 /// A valid small VarDCT image (a transcoded random JPEG) in a container, for other checkers.
 pub fn random_vardct_jpeg_image(rng: &mut Rng, max_dim: u32) -> Option<(Vec<u8>, JpegSpec)> {
+    random_vardct_jpeg_image_with(rng, max_dim, &[], &[])
+}
+
+/// Same, with pools of *valid* ICC profiles to embed (with empty pools an embedded profile is a
+/// structured random one, which no colour management accepts: fine for hostile corpora only).
+pub fn random_vardct_jpeg_image_with(rng: &mut Rng, max_dim: u32, icc_rgb: &[Vec<u8>], icc_gray: &[Vec<u8>]) -> Option<(Vec<u8>, JpegSpec)> {
     for _ in 0..8 {
-        // no embedded ICC here: callers that want one pass valid profiles through JpegGenOpts
-        let o = JpegGenOpts { max_dim, allow_qorder: false, allow_partial_interleave: false, ..Default::default() };
+        let o = JpegGenOpts { max_dim, allow_qorder: false, allow_partial_interleave: false, icc_rgb: icc_rgb.to_vec(), icc_gray: icc_gray.to_vec(), ..Default::default() };
         let spec = random_jpeg(rng, &o);
         let to = TranscodeOpts::random(rng);
         if let Some(t) = jpeg_to_jxl(&spec, rng, &to) {
